@@ -6,14 +6,15 @@
 //! (UBig, IBig, FBig in bases 2/10/16/3, float Repr, RBig, Relaxed, all primitive integers, f32,
 //! f64) and every implemented (Self, Rhs) trait pair is probed on (rep of a, rep of b); the lists of
 //! implemented pairs below are compile-checked (a pair without an impl does not build).
-use dashu_base::{AbsEq, AbsOrd, Sign};
+#![allow(deprecated)] // AbsEq is deprecated but still a public comparison trait
+use dashu_base::{AbsEq, AbsOrd};
 use dashu_float::round::mode;
 use dashu_float::{Context, FBig, Repr};
 use dashu_int::{IBig, UBig};
 use dashu_ratio::{RBig, Relaxed};
 use dv::ball::Ball;
 use dv::fl::{bpow, Sci};
-use dv::gen::{self, pick, SplitMix};
+use dv::gen::{self, SplitMix};
 use dv::*;
 use num_bigint::{BigInt, BigUint};
 use num_integer::Integer;
@@ -396,20 +397,38 @@ fn float_parts(s: &Sci, q: Option<&BigRational>, base: u64) -> Option<(BigInt, i
     }
     let q = q?;
     let den = q.denom().magnitude().clone();
-    let b = BigUint::from(base);
+    // den must divide base^k: strip the primes of the base, k = max over primes of ceil(mult / mult in base)
+    let primes: &[(u64, u64)] = match base {
+        2 => &[(2, 1)],
+        3 => &[(3, 1)],
+        10 => &[(2, 1), (5, 1)],
+        16 => &[(2, 4)],
+        _ => unreachable!(),
+    };
     let mut g = den.clone();
     let mut k = 0u64;
-    while !g.is_one() {
-        // gcd(g, base) through the residue (a big-by-small binary gcd would be quadratic)
-        let t = (&g % &b).to_u64().unwrap().gcd(&base);
-        if t == 1 {
-            return None;
+    for &(p, mult) in primes {
+        let mut cnt = 0u64;
+        if p == 2 {
+            cnt = g.trailing_zeros().unwrap_or(0);
+            g >>= cnt;
+        } else {
+            for chunk in [64u64, 8, 1] {
+                let pc = bpow(p, chunk);
+                loop {
+                    let (qq, rr) = g.div_rem(&pc);
+                    if !rr.is_zero() {
+                        break;
+                    }
+                    g = qq;
+                    cnt += chunk;
+                }
+            }
         }
-        g /= BigUint::from(t);
-        k += 1;
-        if k > 30_000 {
-            return None;
-        }
+        k = k.max((cnt + mult - 1) / mult);
+    }
+    if !g.is_one() || k > 40_000 {
+        return None;
     }
     let m = q.numer() * BigInt::from(bpow(base, k)) / BigInt::from(den);
     Some((m, -(k as i64)))
@@ -561,7 +580,6 @@ fn obs_ord<A: NumOrd<B>, B>(a: &A, b: &B) -> Result<OrdObs, String> {
 fn obs_abs<A: AbsOrd<B>, B>(a: &A, b: &B) -> Result<Ordering, String> {
     catch(|| a.abs_cmp(b))
 }
-#[allow(deprecated)]
 fn obs_abs_eq<A: AbsEq<B>, B>(a: &A, b: &B) -> Result<bool, String> {
     catch(|| a.abs_eq(b))
 }
@@ -771,8 +789,15 @@ fn known_class(site: &Site, got: &str) -> Option<&'static str> {
             // float/src/cmp.rs repr_cmp_ubig / repr_cmp_ibig, ABS = true: the exact step compares the
             // *signed* significand / integer, so the result is wrong only if an operand is negative
             if let Some((f, i)) = mixed(Rep::is_float_family, Rep::is_big_int) {
-                if matches!(f, V::Fin(_)) && (is_neg_v(f) || is_neg_v(i)) && !got.starts_with("panic") {
-                    return Some("C14/float-abs-cmp-int-signed");
+                if matches!(f, V::Fin(_)) && (is_neg_v(f) || is_neg_v(i)) {
+                    // ... and the wrong answer is exactly the signed comparison float ? integer
+                    // (mirrored when the integer is on the left)
+                    if let Ok(Some(signed)) = cmp_v(f, i, false) {
+                        let signed = if site.ra.is_float_family() { signed } else { signed.reverse() };
+                        if got == ord_name(Some(signed)) {
+                            return Some("C14/float-abs-cmp-int-signed");
+                        }
+                    }
                 }
             }
             None
@@ -822,7 +847,6 @@ fn known_class(site: &Site, got: &str) -> Option<&'static str> {
             if shared(site.ra, site.va) && genuine(site.va) {
                 return Some("C14/relaxed-hash-common-factor-m127");
             }
-            let _ = (fa, fb);
             None
         }
         _ => None,
@@ -870,7 +894,9 @@ fn run(c: &Case, ctx: &Ctx) -> Out {
 
     // ---- pair selection: all pairs when few, otherwise a case-determined sample
     let total = ra.len() * rb.len();
-    let maxp = if is_huge { 10 } else if ctx.thorough() { 96 } else { 64 };
+    // every probe of a near pair makes dashu build B^|e|: few probes when that is millions of bits
+    let very_huge = |v: &Val| v.kind == K_FIN && v.exp.unsigned_abs().saturating_mul(log2c(v.base.max(2) as u64)) > 1_500_000 && !(v.base as u64).is_power_of_two();
+    let maxp = if very_huge(&c.a) || very_huge(&c.b) { 4 } else if is_huge { 10 } else if ctx.thorough() { 96 } else { 64 };
     let picks: Vec<usize> = if total <= maxp { (0..total).collect() } else { (0..maxp).map(|i| (i * 7919 + c.salt as usize) % total).collect() };
     let t0 = cpu_s();
     let mut cross = false;
@@ -1158,7 +1184,7 @@ fn gen_val(class: u8, size: u8, r: &mut SplitMix) -> Val {
             };
             let bases = [2u32, 2, 10, 16, 3];
             let base = bases[r.below(5) as usize];
-            let es = [0i64, 0, 1, -1, -2, 126, 127, 128, -126, -127, -128, 254, -254, 381, 12700, -12700, 127 * 3 + 1];
+            let es = [0i64, 0, 1, -1, -2, 126, 127, 128, -126, -127, -128, 254, -254, 381, 1270, -1270, 127 * 3 + 1];
             let exp = es[r.below(es.len() as u64) as usize];
             let mut v = mk(neg, &n, &d, base, exp);
             let ks: [BigUint; 5] = [one.clone(), one.clone(), p.clone(), BigUint::from(3u8), &p * 6u8];
@@ -1362,11 +1388,7 @@ fn case_strategy(class: u8, other_classes: &'static [u8]) -> impl Strategy<Value
 }
 
 fn run_labelled(c: &Case, ctx: &Ctx) -> Out {
-    let t0 = cpu_s();
     let mut out = run(c, ctx);
-    if std::env::var("C14_SLOW").is_ok() && cpu_s() - t0 > 0.3 {
-        eprintln!("SLOW {:.2}s: a={} b={} rel={}", cpu_s() - t0, c.a.show(), c.b.show(), c.rel);
-    }
     out.label(REL_NAMES[(c.rel as usize).min(REL_NAMES.len() - 1)]);
     out
 }
